@@ -40,7 +40,8 @@ def limitOfEp (ep : Endpoint) (s : String) : Option (Option Nat) :=
 def paths : List String := ["inline", "off", "joff", "push", "pushoff", "pushn", "pushrun", "bcast", "bcastj", "bcastu", "proxy"]
 
 /-- the client API used (all funnel into `write_request`; which one is not part of the model) -/
-def clientKinds : List String := ["call", "notify", "cjson", "cjsont", "ctyped", "cbeve", "rwrite", "njson", "nbeve", "batch", "batchrun"]
+def clientKinds : List String := ["call", "notify", "cjson", "cjsont", "ctyped", "cbeve", "rwrite", "njson", "nbeve", "batch", "batchrun",
+  "cfmtt", "ctypedt", "cbevet", "cmsg", "cmsgt", "rread", "rreadt", "rreadty", "rreadtyt", "rcall", "ntyped", "batcht"]
 
 /-- how many identical messages the op queues: a broadcast once per registered peer (the harness keeps two),
 `pushrun` / `batchrun` a run whose length is read off the id -/
